@@ -37,15 +37,21 @@ def main():
     if "--benign" in argv:
         SEEDDIR = "benign"
         argv = [a for a in argv if a != "--benign"] + ["--all"]
+    only = None
+    if "--props" in argv:
+        only = argv[argv.index("--props") + 1].split(",")
+        del argv[argv.index("--props"):argv.index("--props") + 2]
     allp = "--all" in argv
     jobs = 8
     if "--jobs" in argv:
         jobs = int(argv[argv.index("--jobs") + 1])
-    seeds = [a for a in argv if not a.startswith("--") and not a.isdigit()]
+    seeds = [a for a in argv if not a.startswith("--") and not a.isdigit() and "," not in a]
     if not seeds:
         seeds = sorted(x for x in os.listdir(os.path.join(HERE, SEEDDIR)) if os.path.isdir(os.path.join(HERE, SEEDDIR, x)))
     man = json.load(open(os.path.join(HERE, "MANIFEST.json")))
     props_all = [c["property_id"] for c in man["checks"]]
+    if only:
+        props_all = [p for p in props_all if p in only]
     tasks = []
     for s in seeds:
         own = json.load(open(os.path.join(HERE, SEEDDIR, s, "meta.json"))).get("property", s.split("-")[0])
@@ -60,7 +66,16 @@ def main():
             print("%-8s own=%s caught_by=%s%s %s" % (seed, "CAUGHT" if own in caught else "MISSED", ",".join(caught) or "-",
                                                    (" BROKEN=" + ",".join(broken)) if broken else "",
                                                    "; ".join("%s:%s" % (p, ",".join(res[p]["rules"][:4])) for p in caught[:3])), flush=True)
-    json.dump(out, open(os.path.join(HERE, SEEDDIR, "matrix-all.json" if allp else "matrix-own.json"), "w"), indent=1)
+    path = os.path.join(HERE, SEEDDIR, "matrix-all.json" if allp else "matrix-own.json")
+    merged = {}
+    if os.path.exists(path):
+        try:
+            merged = json.load(open(path))
+        except Exception:
+            merged = {}
+    for seed, res in out.items():
+        merged.setdefault(seed, {}).update(res)      # partial runs (some seeds, some properties) refresh their entries only
+    json.dump(merged, open(path, "w"), indent=1, sort_keys=True)
 
 
 main()
